@@ -8,6 +8,7 @@
 //   --prog FILE : before each case the harness pwrite()s "k\n" at offset 0 (crash attribution)
 //   --out FILE  : JSON lines
 //       {"t":"viol","key":K,"case":k,"detail":D}      one per violation (max 5 details/key, rest counted)
+//       FILE.dg : binary sidecar, the uint64 digests of the distinct non-trivial cases of this worker (capped at 250000)
 //       {"t":"summary","cases":n,"stats":{..},"distinct":d,"nontrivial":m,"samples":[..],"violkeys":{key:count}}
 //   exit status 0 = harness ran to completion (violations are in the file), 3 = usage,
 //   anything else = crash (sanitizer report / abort / signal) -> the driver reads stderr.
@@ -69,7 +70,7 @@ static inline std::string fmt(const char * f, ...)
 struct Ctx {
    uint64_t seed; long from; long cases; std::string out; std::string prog; std::map<std::string, std::string> opt;
    int progfd; FILE * outf; long curCase; long casesRun;
-   std::map<std::string, long> stats; std::map<std::string, long> violKeys; std::set<uint64_t> distinctSet; long nontrivial;
+   std::map<std::string, long> stats; std::map<std::string, long> violKeys; std::set<uint64_t> distinctSet; std::set<uint64_t> ntSet; long nontrivial;
    std::vector<std::string> samples; size_t maxSamples; std::mutex mu; long totalViol;
    Ctx() : seed(1), from(0), cases(100), progfd(-1), outf(NULL), curCase(-1), casesRun(0), nontrivial(0), maxSamples(6), totalViol(0) {}
 };
@@ -109,7 +110,7 @@ static inline void note(const std::string & s)
 }
 static inline void stat(const std::string & name, long add = 1) { Ctx & c = ctx(); std::lock_guard<std::mutex> g(c.mu); c.stats[name] += add; }
 static inline void statmax(const std::string & name, long v) { Ctx & c = ctx(); std::lock_guard<std::mutex> g(c.mu); long & r = c.stats[name]; if (v > r) r = v; }
-static inline void distinct(uint64_t digest, bool nontrivial = true) { Ctx & c = ctx(); std::lock_guard<std::mutex> g(c.mu); if (c.distinctSet.size() < 4000000) { if (c.distinctSet.insert(digest).second && nontrivial) c.nontrivial++; } }
+static inline void distinct(uint64_t digest, bool nontrivial = true) { Ctx & c = ctx(); std::lock_guard<std::mutex> g(c.mu); if (c.distinctSet.size() < 4000000) { if (c.distinctSet.insert(digest).second && nontrivial) { c.nontrivial++; if (c.ntSet.size() < 250000) c.ntSet.insert(digest); } } }
 static inline void sample(const std::string & s) { Ctx & c = ctx(); std::lock_guard<std::mutex> g(c.mu); if (c.samples.size() < c.maxSamples) c.samples.push_back(s); }
 static inline bool want_sample() { Ctx & c = ctx(); return c.samples.size() < c.maxSamples; }
 static inline void viol(const std::string & key, const std::string & detail)
@@ -131,7 +132,12 @@ static inline int finish()
    for (size_t i = 0; i < c.samples.size(); i++) { if (!first) s += ","; first = false; s += "\"" + jesc(c.samples[i]) + "\""; }
    s += "]}\n";
    fputs(s.c_str(), c.outf); fflush(c.outf);
-   if (c.outf != stdout) fclose(c.outf);
+   if (c.outf != stdout) {
+      fclose(c.outf);
+      // sidecar with the digests of the distinct non-trivial cases (at most 250000), so that the driver can count distinct cases across workers
+      FILE * dg = fopen((c.out + ".dg").c_str(), "wb");
+      if (dg) { for (std::set<uint64_t>::const_iterator it = c.ntSet.begin(); it != c.ntSet.end(); ++it) { uint64_t v = *it; if (fwrite(&v, sizeof(v), 1, dg) != 1) break; } fclose(dg); }
+   }
    return 0;
 }
 
